@@ -6,6 +6,7 @@ import re
 
 from ..classes import dataclass_fields
 from ..loader import AnalysisError, dotted, norm, walk_no_defs
+from ..loader import ANCHORED as _ANCHORED
 from ..minieval import Unsupported
 from ..modelinterp import Bound, ClassRef, FuncRef, Hook, ModelInterp, Recorder, Stub
 from ..report import Finding, RuleReport
@@ -132,6 +133,7 @@ def _wrapper_table(a):
             continue
         after_yield = False
         core = None
+        _ANCHORED.add(m.qualname)
         for s in m.node.body:
             for n in walk_no_defs(s):
                 if isinstance(n, (ast.Yield, ast.YieldFrom)):
@@ -162,6 +164,7 @@ def _resolve_core(a, name: str, kwargs: dict, depth=0):
     m = a.ct.lookup(CTX, name)
     if m is None or depth > 4:
         return name, kwargs
+    _ANCHORED.add(m.qualname)
     body = [s for s in m.node.body if not (isinstance(s, ast.Expr) and isinstance(s.value, ast.Constant))]
     if len(body) == 1 and isinstance(body[0], ast.Return) and isinstance(body[0].value, ast.Call):
         call = body[0].value
